@@ -63,6 +63,27 @@ CLAIMS = {
             "and type facts for the insertion-ordered inputs of decide(). A new source anywhere in the crates is a violation, "
             "whatever input would be needed to observe it.",
             "DESIGN.md section 4 C06"),
+    "C07": ("def-use/order-preservation analysis of the candidate order from the provider's sort to decide()'s first-unassigned choice (MIR)",
+            "Only necessary structural conditions of C07 are decided (each one, if broken, changes which candidate is tried first): "
+            "provenance and favored rotation of the cached order (shared with C20), order-preserving map/collect from the cache into "
+            "requirement_to_sorted_candidates, version sets fetched and walked in the requirement's own order, decide()'s fold creates "
+            "the proposal only when none exists and keeps it afterwards, union members stored in sequences. That the search returns "
+            "exactly the preferred selection on conflict-free universes is a statement about runs and is not decided.",
+            "DESIGN.md section 4 C07"),
+    "C08": ("guard-on-every-path analysis of decide()'s explicit-first rule + who-may-decide-true census (MIR)",
+            "Only necessary structural conditions of C08 are decided: the explicit flag is `parent == root` and is what a proposal "
+            "records; within one iteration over requiring solvables every path to a replacement of the best proposal passes "
+            "`best.is_explicit && !is_explicit`, whose true side skips the requirement; each requirement proposes its first "
+            "unassigned candidate; nothing else decides a solvable true. Whether the choice survives conflicts and backjumps (the "
+            "dynamic content of C08) is not decided.",
+            "DESIGN.md section 4 C08"),
+    "C14": ("def-use of the starting level through run_sat's restarts and failure path, guard dominance in solve()'s soft loop (MIR)",
+            "Only necessary structural conditions of C14 are decided: every undo inside run_sat and its failure handler goes to the "
+            "run's own starting level (derived from the last decision on the trail), the run's solvable is decided at "
+            "starting_level+1, a failing soft run undoes, decides the solvable false and returns Ok(false) while Unsolvable is built "
+            "only for the root run, and solve() tries each soft requirement after the hard run, per element, only if it is undecided "
+            "at that moment, ignoring Ok(false). Level arithmetic under backjumps inside a soft run is not decided.",
+            "DESIGN.md section 4 C14"),
     "C09": ("who-may-call census over resolved trait-method call sites + memoisation guard-dominance/post-dominance (T-MEMO) on MIR",
             "Decides the mechanisms of C09 on every path: single choke point per provider method, each dominated by the miss "
             "edge of its memo lookup and followed by the insert under the same key, in-flight sharing for get_candidates, per-solve "
@@ -142,9 +163,6 @@ CLAIMS = {
 }
 
 NA = {
-    "C07": "which candidate the search selects as a function of provider rankings is a value-level result of decide()/rotate arithmetic; no structural clause exists that is not a frozen code shape (DESIGN.md section 6)",
-    "C08": "optimality of direct requirements depends on the dynamics of activity scores and backjumps across conflicts - runtime quantities no static analysis in reach bounds (DESIGN.md section 6)",
-    "C14": "the guarantee is about decision levels across successive run_sat calls (trail arithmetic), not code shape; the static facts available would be a proxy (DESIGN.md section 6)",
     "C15": "correctness of the logarithmic at-most-one encoding for every n is an arithmetic theorem about bit patterns; needs proof or enumeration, not code-shape analysis; the registration half is decided under C01 (DESIGN.md section 6)",
 }
 PENDING = "rule module not yet registered in this revision (planned: DESIGN.md section 4)"
